@@ -265,7 +265,7 @@ Definition run_stack (a : sx) : sx :=
   end.
 
 (** private dispatcher (the integrated build uses Harness/Dispatch.v) *)
-Definition run (name : string) (a : sx) : sx :=
+Definition run03 (name : string) (a : sx) : sx :=
   if String.eqb name "c03.rt" then run_rt a
   else if String.eqb name "c03.dec" then run_dec a
   else if String.eqb name "c03.stack" then run_stack a
